@@ -39,13 +39,75 @@ func (a *nfa) t(from int, s string, to int) { a.step[from][s] = append(a.step[fr
 
 type pathCtx struct {
 	ret, brk, cont int // jump targets (-1: none)
+	// blind: inside a deferred or inlined body conditions carry no knowledge (a deferred body runs at the function's
+	// exit, not where it is registered; an inlined helper has its own variables)
+	blind bool
+	// loopExit / sawLoopCond: the innermost loop's exit and whether its condition was seen
+	loopExit    int
+	sawLoopCond *bool
 }
 
 type pathParser struct {
-	tok []string
-	pos int
-	a   *nfa
-	err string
+	tok  []string
+	pos  int
+	a    *nfa
+	err  string
+	cond string // the condition of the `if{` that follows
+}
+
+const (
+	symTrue  = "\x00T:"
+	symFalse = "\x00F:"
+	symKill  = "\x00K:"
+	symSet   = "\x00S:"
+	symCopy  = "\x00C:"
+)
+
+// test compiles a condition (condExpr syntax) from state `from`: control reaches onTrue / onFalse through edges that
+// record what was learned about the atoms.
+func (p *pathParser) test(e string, from, onTrue, onFalse int, blind bool) {
+	if blind || e == "" || e == "*" {
+		p.a.e(from, onTrue)
+		p.a.e(from, onFalse)
+		return
+	}
+	switch e[0] {
+	case '@':
+		p.a.t(from, symTrue+e[1:], onTrue)
+		p.a.t(from, symFalse+e[1:], onFalse)
+	case '!':
+		p.test(e[2:len(e)-1], from, onFalse, onTrue, blind)
+	case '&', '|':
+		// split the two arguments at the top-level comma
+		depth, cut := 0, -1
+		for i := 2; i < len(e)-1; i++ {
+			switch e[i] {
+			case '(':
+				depth++
+			case ')':
+				depth--
+			case ',':
+				if depth == 0 && cut < 0 {
+					cut = i
+				}
+			}
+		}
+		if cut < 0 {
+			p.a.e(from, onTrue)
+			p.a.e(from, onFalse)
+			return
+		}
+		mid := p.a.state()
+		if e[0] == '&' {
+			p.test(e[2:cut], from, mid, onFalse, blind)
+		} else {
+			p.test(e[2:cut], from, onTrue, mid, blind)
+		}
+		p.test(e[cut+1:len(e)-1], mid, onTrue, onFalse, blind)
+	default:
+		p.a.e(from, onTrue)
+		p.a.e(from, onFalse)
+	}
 }
 
 var pathStruct = map[string]bool{"if{": true, "}else{": true, "}": true, "for{": true, "loop{": true, "select{": true, "switch{": true,
@@ -66,6 +128,46 @@ func (p *pathParser) seq(cur int, c pathCtx) int {
 			dead := cur
 			_ = dead
 		}
+		if strings.HasPrefix(t, "cond:") {
+			p.cond = t[5:]
+			continue
+		}
+		if strings.HasPrefix(t, "loopcond:") {
+			// the loop goes on only while its condition holds
+			if c.sawLoopCond != nil {
+				*c.sawLoopCond = true
+			}
+			n := p.a.state()
+			p.test(t[9:], cur, n, c.loopExit, c.blind)
+			cur = n
+			continue
+		}
+		if strings.HasPrefix(t, "kill:") {
+			n := p.a.state()
+			p.a.t(cur, symKill+t[5:], n)
+			cur = n
+			continue
+		}
+		if strings.HasPrefix(t, "set:") || strings.HasPrefix(t, "copy:") {
+			n := p.a.state()
+			switch {
+			case c.blind:
+				// a deferred body runs later: what it would set is merely forgotten here
+				target := t[strings.IndexByte(t, ':')+1:]
+				if k := strings.Index(target, "<-"); k >= 0 {
+					target = target[:k]
+				} else {
+					target = target[:len(target)-2]
+				}
+				p.a.t(cur, symSet+target+"=?", n)
+			case strings.HasPrefix(t, "set:"):
+				p.a.t(cur, symSet+t[4:], n)
+			default:
+				p.a.t(cur, symCopy+t[5:], n)
+			}
+			cur = n
+			continue
+		}
 		switch t {
 		case "return":
 			p.a.e(cur, c.ret)
@@ -81,21 +183,21 @@ func (p *pathParser) seq(cur int, c pathCtx) int {
 			}
 			cur = -1
 		case "if{":
+			cond := p.cond
+			p.cond = ""
 			exit := p.a.state()
-			thenIn := p.a.state()
-			p.a.e(cur, thenIn)
+			thenIn, elseIn := p.a.state(), p.a.state()
+			p.test(cond, cur, thenIn, elseIn, c.blind)
 			if x := p.seq(thenIn, c); x >= 0 {
 				p.a.e(x, exit)
 			}
 			if p.pos < len(p.tok) && p.tok[p.pos] == "}else{" {
 				p.pos++
-				elseIn := p.a.state()
-				p.a.e(cur, elseIn)
 				if x := p.seq(elseIn, c); x >= 0 {
 					p.a.e(x, exit)
 				}
 			} else {
-				p.a.e(cur, exit)
+				p.a.e(elseIn, exit)
 			}
 			p.expect("}")
 			cur = exit
@@ -104,13 +206,14 @@ func (p *pathParser) seq(cur int, c pathCtx) int {
 			p.a.e(cur, head)
 			body := p.a.state()
 			p.a.e(head, body)
-			if t == "for{" {
-				p.a.e(head, exit)
-			}
+			saw := false
 			c2 := c
-			c2.brk, c2.cont = exit, head
+			c2.brk, c2.cont, c2.loopExit, c2.sawLoopCond = exit, head, exit, &saw
 			if x := p.seq(body, c2); x >= 0 {
 				p.a.e(x, head)
+			}
+			if t == "for{" && !saw {
+				p.a.e(head, exit) // a range loop (or a condition that was not rendered): may end at its head
 			}
 			p.expect("}")
 			cur = exit
@@ -139,7 +242,7 @@ func (p *pathParser) seq(cur int, c pathCtx) int {
 			exit := p.a.state()
 			in := p.a.state()
 			p.a.e(cur, in)
-			c2 := pathCtx{ret: exit, brk: -1, cont: -1}
+			c2 := pathCtx{ret: exit, brk: -1, cont: -1, blind: t == "defer{" || c.blind, loopExit: -1}
 			if x := p.seq(in, c2); x >= 0 {
 				p.a.e(x, exit)
 			}
@@ -169,30 +272,143 @@ type dfa struct {
 	next   []map[string]int
 }
 
-func closure(a *nfa, set map[int]bool) {
-	var stack []int
-	for s := range set {
-		stack = append(stack, s)
+// item: an NFA state together with what is known about the condition atoms on the way there ("a=1;b=0", sorted).
+type item struct {
+	s int
+	v string
+}
+
+func valGet(v, atom string) (bool, bool) {
+	if v == "" {
+		return false, false
+	}
+	for _, kv := range strings.Split(v, ";") {
+		if len(kv) == len(atom)+2 && strings.HasPrefix(kv, atom+"=") {
+			return kv[len(kv)-1] == '1', true
+		}
+	}
+	return false, false
+}
+
+func valSet(v, atom string, b bool) string {
+	var kvs []string
+	if v != "" {
+		kvs = strings.Split(v, ";")
+	}
+	x := "0"
+	if b {
+		x = "1"
+	}
+	kvs = append(kvs, atom+"="+x)
+	sort.Strings(kvs)
+	return strings.Join(kvs, ";")
+}
+
+// mentions: does the atom mention the variable / field chain `name` (as a whole identifier chain or a prefix of one)?
+func mentions(atom, name string) bool {
+	isId := func(c byte) bool {
+		return c == '_' || c >= '0' && c <= '9' || c >= 'a' && c <= 'z' || c >= 'A' && c <= 'Z'
+	}
+	for i := 0; i+len(name) <= len(atom); i++ {
+		if atom[i:i+len(name)] == name && (i == 0 || !(isId(atom[i-1]) || atom[i-1] == '.')) {
+			j := i + len(name)
+			if j == len(atom) || !isId(atom[j]) {
+				return true
+			}
+		}
+	}
+	return false
+}
+
+func valKill(v string, pred func(atom string) bool) string {
+	if v == "" {
+		return v
+	}
+	var kvs []string
+	for _, kv := range strings.Split(v, ";") {
+		if !pred(kv[:len(kv)-2]) {
+			kvs = append(kvs, kv)
+		}
+	}
+	return strings.Join(kvs, ";")
+}
+
+// closure follows ε edges and the knowledge edges: a test edge is taken only if it does not contradict what is known (an
+// infeasible path is dropped) and records what it learned; a kill edge forgets the atoms that mention the assigned variable.
+func closure(a *nfa, set map[item]bool) {
+	var stack []item
+	for it := range set {
+		stack = append(stack, it)
+	}
+	push := func(it item) {
+		if !set[it] {
+			set[it] = true
+			stack = append(stack, it)
+		}
 	}
 	for len(stack) > 0 {
-		s := stack[len(stack)-1]
+		it := stack[len(stack)-1]
 		stack = stack[:len(stack)-1]
-		for _, t := range a.eps[s] {
-			if !set[t] {
-				set[t] = true
-				stack = append(stack, t)
+		for _, t := range a.eps[it.s] {
+			push(item{t, it.v})
+		}
+		for sym, tos := range a.step[it.s] {
+			switch {
+			case strings.HasPrefix(sym, symTrue), strings.HasPrefix(sym, symFalse):
+				atom, want := sym[len(symTrue):], strings.HasPrefix(sym, symTrue)
+				if known, ok := valGet(it.v, atom); ok {
+					if known == want {
+						for _, t := range tos {
+							push(item{t, it.v})
+						}
+					}
+					continue
+				}
+				nv := valSet(it.v, atom, want)
+				for _, t := range tos {
+					push(item{t, nv})
+				}
+			case strings.HasPrefix(sym, symKill):
+				name := sym[len(symKill):]
+				nv := valKill(it.v, func(atom string) bool { return mentions(atom, name) })
+				for _, t := range tos {
+					push(item{t, nv})
+				}
+			case strings.HasPrefix(sym, symSet):
+				// "atom=1" / "atom=0" / "atom=?" (forget)
+				body := sym[len(symSet):]
+				atom, val := body[:len(body)-2], body[len(body)-1]
+				nv := valKill(it.v, func(a string) bool { return a == atom })
+				if val != '?' {
+					nv = valSet(nv, atom, val == '1')
+				}
+				for _, t := range tos {
+					push(item{t, nv})
+				}
+			case strings.HasPrefix(sym, symCopy):
+				// "dst<-src": dst receives what is known about src
+				body := sym[len(symCopy):]
+				k := strings.Index(body, "<-")
+				dst, src := body[:k], body[k+2:]
+				nv := valKill(it.v, func(a string) bool { return a == dst })
+				if known, ok := valGet(it.v, src); ok {
+					nv = valSet(nv, dst, known)
+				}
+				for _, t := range tos {
+					push(item{t, nv})
+				}
 			}
 		}
 	}
 }
 
-func setKey(set map[int]bool) string {
-	var ks []int
-	for s := range set {
-		ks = append(ks, s)
+func setKey(set map[item]bool) string {
+	var ks []string
+	for it := range set {
+		ks = append(ks, fmt.Sprintf("%d/%s", it.s, it.v))
 	}
-	sort.Ints(ks)
-	return fmt.Sprint(ks)
+	sort.Strings(ks)
+	return strings.Join(ks, " ")
 }
 
 // pathDFA: the minimal DFA of the token list's path language, canonically numbered.
@@ -200,7 +416,7 @@ func pathDFA(tokens []string) (*dfa, string) {
 	a := &nfa{}
 	start, final := a.state(), a.state()
 	p := &pathParser{tok: tokens, a: a}
-	if x := p.seq(start, pathCtx{ret: final, brk: -1, cont: -1}); x >= 0 {
+	if x := p.seq(start, pathCtx{ret: final, brk: -1, cont: -1, loopExit: -1}); x >= 0 {
 		a.e(x, final)
 	}
 	if p.pos != len(tokens) && p.err == "" {
@@ -209,23 +425,35 @@ func pathDFA(tokens []string) (*dfa, string) {
 	if p.err != "" {
 		return nil, p.err
 	}
-	// subset construction
-	s0 := map[int]bool{start: true}
+	// subset construction over (state, knowledge) items; knowledge edges belong to the closure, primitives are the alphabet
+	s0 := map[item]bool{{start, ""}: true}
 	closure(a, s0)
 	index := map[string]int{setKey(s0): 0}
-	sets := []map[int]bool{s0}
+	sets := []map[item]bool{s0}
 	d := &dfa{}
 	for i := 0; i < len(sets); i++ {
-		d.accept = append(d.accept, sets[i][final])
+		acc := false
+		for it := range sets[i] {
+			if it.s == final {
+				acc = true
+			}
+		}
+		d.accept = append(d.accept, acc)
 		d.next = append(d.next, map[string]int{})
-		syms := map[string]map[int]bool{}
-		for s := range sets[i] {
-			for sym, tos := range a.step[s] {
-				if syms[sym] == nil {
-					syms[sym] = map[int]bool{}
+		syms := map[string]map[item]bool{}
+		for it := range sets[i] {
+			for sym, tos := range a.step[it.s] {
+				if strings.HasPrefix(sym, "\x00") {
+					continue
 				}
+				if syms[sym] == nil {
+					syms[sym] = map[item]bool{}
+				}
+				// a primitive (a call, a lock operation, I/O) may change the connection's fields: only knowledge about
+				// local variables survives it
+				nv := valKill(it.v, func(atom string) bool { return strings.Contains(atom, ".") })
 				for _, t := range tos {
-					syms[sym][t] = true
+					syms[sym][item{t, nv}] = true
 				}
 			}
 		}
@@ -239,6 +467,9 @@ func pathDFA(tokens []string) (*dfa, string) {
 				sets = append(sets, set)
 			}
 			d.next[i][sym] = j
+		}
+		if len(sets) > 20000 {
+			return nil, "path automaton too large"
 		}
 	}
 	return minimise(d), ""
